@@ -155,7 +155,7 @@ func genPtrDump(r *Rng) []GSpec {
 }
 
 func runC15(prop string, res *Result, pool *DrvPool, r *Rng) {
-	res.Rule = "generated dumps whose arguments draw from a small pool of pointer values (recurring within and across goroutines, in nested aggregates, at the classification boundaries), scanned with naming on and off; non-trivial = at least one pointer value recurs; distinct by hash of the dump text"
+	res.Rule = "generated dumps whose arguments draw from a small pool of pointer values (recurring within and across goroutines, in nested aggregates, at the classification boundaries), scanned with naming on and off (every third case also through ScanSnapshot with path guessing / source analysis on or off: naming off must leave no name whatever the other options are); non-trivial = at least one pointer value recurs; distinct by hash of the dump text"
 	n := countN(res.Tier, 2500, 80000)
 	for i := 0; i < n; i++ {
 		gs := genPtrDump(r)
@@ -224,6 +224,10 @@ func runC15(prop string, res *Result, pool *DrvPool, r *Rng) {
 				}
 			})
 			res.Count("constructed")
+		}
+		// the gate through the public entry point, with the other options varied
+		if i%3 == 0 {
+			cliNamesGate(res, r)
 		}
 		if rec {
 			res.Count("recurring")
